@@ -232,6 +232,10 @@ func c12Profile(r *Rng, wrapIDs bool) *profile.Profile {
 func c12PickU(r *Rng, l []uint64) uint64 { return l[r.Intn(len(l))] }
 
 func c12Frame(r *Rng) plugin.Frame {
+	if r.P(1, 8) {
+		// what addr2line prints as ?? / ??:0: nothing known about the frame (maybe a column or start line)
+		return plugin.Frame{Column: r.Intn(2), StartLine: r.Intn(2) * 7}
+	}
 	return plugin.Frame{Func: PickS(r, c12SysNames), File: PickS(r, c12SrcFiles),
 		Line:      int(PickI(r, []int64{0, 0, 1, 7, 42, -1, math.MaxInt64, math.MinInt64})),
 		Column:    r.Intn(3),
@@ -381,6 +385,11 @@ func c12SortedKeys(m map[string]bool) []string {
 
 // c12Sym runs one whole Symbolize case.
 func c12Sym(c *Ctx, gen, mode string, p *profile.Profile, ms plugin.MappingSources, script []c12Answer) {
+	c12SymN(c, gen, mode, p, ms, script, false)
+}
+
+// c12SymN: twice = the same Symbolizer object symbolizes the same profile a second time (op "sym2").
+func c12SymN(c *Ctx, gen, mode string, p *profile.Profile, ms plugin.MappingSources, script []c12Answer, twice bool) {
 	if p.CheckValid() != nil {
 		return // only valid profiles are in the property's domain
 	}
@@ -436,6 +445,9 @@ func c12Sym(c *Ctx, gen, mode string, p *profile.Profile, ms plugin.MappingSourc
 			}
 		}()
 		serr = sym.Symbolize(mode, ms, p)
+		if twice && serr == nil {
+			serr = sym.Symbolize(mode, ms, p)
+		}
 	}()
 	changed := false
 	if obs == nil {
@@ -463,7 +475,11 @@ func c12Sym(c *Ctx, gen, mode string, p *profile.Profile, ms plugin.MappingSourc
 		}
 		filtT = append(filtT, L(S(dm), L(tab...)))
 	}
-	in := L(S("sym"), S(mode), before, c12DumpScript(script), L(srcT...), L(symzT...), L(httpT...), L(filtT...))
+	op := "sym"
+	if twice {
+		op = "sym2"
+	}
+	in := L(S(op), S(mode), before, c12DumpScript(script), L(srcT...), L(symzT...), L(httpT...), L(filtT...))
 	tags := []string{"mode:" + strings.ToLower(mode)}
 	if serr != nil {
 		tags = append(tags, "returned-error")
@@ -480,7 +496,7 @@ func c12Sym(c *Ctx, gen, mode string, p *profile.Profile, ms plugin.MappingSourc
 func runC12(c *Ctx) {
 	r := c.R
 	// 1. whole-Symbolize cases: random valid profile x mode x script x sources
-	n := c.Budget(800, 6000)
+	n := c.Budget(650, 6000)
 	for k := 0; k < n; k++ {
 		p := c12Profile(r, false)
 		ms := c12Sources_(r, p)
@@ -532,6 +548,15 @@ func runC12(c *Ctx) {
 		ms := plugin.MappingSources{"/bin/app": []c12Source{{"http://host/debug/pprof/profile", 0x1000}}}
 		c12Sym(c, "repaired-F12-F13", "remote", p, ms, []c12Answer{{Body: "0x1200 <lambda>\n"}})
 	}
+	// 4a. the same Symbolizer symbolizes the same profile twice
+	for k := 0; k < c.Budget(100, 1500); k++ {
+		p := c12Profile(r, false)
+		ms := c12Sources_(r, p)
+		mode := PickS(r, []string{"", "local", "remote", "force", "local:force", "remote:force", "none", "demangle=full", "fastlocal"})
+		c12SymN(c, "twice", mode, p, ms, c12ScriptGen(r, p, ms, 12), true)
+	}
+	// 4b. the driver's pipeline around Symbolize (c12fetch.go)
+	runC12Fetch(c)
 	// 5. direct calls of the pure helpers
 	ext := []uint64{0, 1, 2, 0x1000, 1<<63 - 1, 1 << 63, 1<<63 + 1, math.MaxUint64 - 1, math.MaxUint64, 1 << 32}
 	adj := func(a uint64, o int64) {
